@@ -21,6 +21,7 @@ import (
 	"github.com/btcsuite/btcd/wire/v2"
 	"github.com/lightninglabs/neutrino/headerfs"
 	"github.com/lightninglabs/neutrino/internal/verifbubble"
+	"github.com/lightninglabs/neutrino/internal/verifdetrt"
 	"github.com/lightninglabs/neutrino/internal/verifeng"
 )
 
@@ -313,6 +314,14 @@ func c10Run(c *verifeng.Chooser, depth, nreq int) {
 	if vfxInBurst {
 		burst = verifbubble.NewBurst(c)
 	}
+	if vfxSyncPre {
+		// third configuration: one preemption at a synchronisation point
+		burst = verifbubble.NewBurst(c)
+		if burst != nil {
+			burst.NoSched, burst.NoSelect = true, true
+			burst.Sync = verifdetrt.SyncMutex | verifdetrt.SyncSpawn | verifdetrt.SyncChan
+		}
+	}
 	for d := 0; d < depth && !c.Failed(); d++ {
 		verifbubble.Wait()
 		burst.End()
@@ -351,6 +360,43 @@ func c10Run(c *verifeng.Chooser, depth, nreq int) {
 					})
 					lives = append(lives, l)
 				}})
+			}
+			if vfxSyncPre && len(lives)+2 <= nreq {
+				// two callers at once (each in its own goroutine): only
+				// then can a preemption inside Enqueue matter
+				prev := -1
+				for i := range c10pool {
+					if used[i] {
+						continue
+					}
+					if prev < 0 {
+						prev = i
+						continue
+					}
+					i, j := prev, i
+					prev = -1
+					ri, rj := c10pool[i], c10pool[j]
+					menu = append(menu, ev{"GetUtxo(" + ri.name + ") and GetUtxo(" + rj.name + ") by two callers at once", func() {
+						for _, k := range []int{i, j} {
+							r := c10pool[k]
+							used[k] = true
+							l := &live{r: r, cancel: make(chan struct{}), tipAtEnq: tip}
+							l.tk = verifbubble.Go("GetUtxo("+r.name+")", func() (any, error) {
+								in := &InputWithScript{OutPoint: ops[r.op], PkScript: c10script(r.script)}
+								req, err := scanner.Enqueue(in, r.birth, nil)
+								if err != nil {
+									return (*SpendReport)(nil), err
+								}
+								rep, err := req.Result(l.cancel)
+								return rep, err
+							})
+							lives = append(lives, l)
+						}
+					}})
+					if len(menu) > 24 {
+						break
+					}
+				}
 			}
 			if tip < len(full.blocks)-1 {
 				menu = append(menu, ev{fmt.Sprintf("block %d arrives", tip+1), func() { tip++ }})
@@ -517,6 +563,7 @@ func TestVFXC10(t *testing.T) {
 		}
 		fmt.Sscanf(v.Config, "depth=%d requests=%d", &depth, &nreq)
 		vfxInBurst = strings.Contains(v.Config, "in-burst")
+		vfxSyncPre = strings.Contains(v.Config, "preemption")
 		e := verifeng.FromEnv(v.Harness, v.Config)
 		_, x, err := e.ReplayFile(rp, c10Body(t, depth, nreq))
 		if err != nil {
@@ -544,6 +591,18 @@ func TestVFXC10(t *testing.T) {
 	e.MaxDev = 1
 	e.Run(c10Body(t, depth-2, nreq))
 	vfxInBurst = false
+	if err := verifeng.AppendResult(&e.Res); err != nil {
+		t.Fatal(err)
+	}
+	// third configuration: at most one preemption at a synchronisation point
+	// per execution, callers arriving in pairs
+	vfxSyncPre = true
+	e = verifeng.FromEnv("C10-utxoscanner", fmt.Sprintf("depth=%d requests=%d pool=%d preemption at a synchronisation point<=1", depth-3, nreq, len(c10pool)))
+	e.ShardDepth = 2
+	e.MaxViol = 12
+	e.MaxDev = 1
+	e.Run(c10Body(t, depth-3, nreq))
+	vfxSyncPre = false
 	if err := verifeng.AppendResult(&e.Res); err != nil {
 		t.Fatal(err)
 	}
